@@ -358,8 +358,8 @@ def run(ctx):
 		for type_name, field in keyed_arrays(net):
 			total += 1
 			ctx.count(f'keyed-arrays:{net.name}')
-			KeyedArrayCheck(ctx, net, engine, type_name, field).run(ctx.scale(6, 60), ctx.scale(5, 7))
-			nested_sort(ctx, net, engine, type_name, field, ctx.scale(3, 30))
+			KeyedArrayCheck(ctx, net, engine, type_name, field).run(ctx.scale(15, 60), ctx.scale(5, 7))
+			nested_sort(ctx, net, engine, type_name, field, ctx.scale(6, 30))
 	if 0 == total:
 		ctx.fail('corr', 'no keyed array found in the schemas', {})
 
